@@ -297,18 +297,30 @@ def evalFamily (w : World) (pyout : Sexp) (withStrides : Bool) : String :=
 /-! ### histories -/
 
 inductive HOp where
-  | add (k : Nat) (c : Comp Nat Nat Int)
+  | add (k : Nat) (c : Comp Nat Nat Int)       -- add_component / add_component_link (inputs checked)
+  | addRaw (k : Nat) (c : Comp Nat Nat Int)    -- add_component(DerivedComponent(data, link), cid): no check
   | remove (k : Nat)
   | update (old new : Nat)
+  | reorder (pref : List Nat) (exact : Bool)   -- reorder_components(pref [+ the other ids in table order])
 
 def parseHOp : Sexp → Option HOp
   | .list [.atom "add", k, c] => do
     match ← parseComp c with
     | .ok comp => some (.add (← k.toNat?) comp)
     | .error _ => none
+  | .list [.atom "radd", k, c] => do
+    match ← parseComp c with
+    | .ok comp => some (.addRaw (← k.toNat?) comp)
+    | .error _ => none
   | .list [.atom "remove", k] => k.toNat?.map .remove
   | .list [.atom "update", o, n] => do some (.update (← o.toNat?) (← n.toNat?))
+  | .list [.atom "reorder", pref, ex] => do some (.reorder (← pref.toNats?) (← ex.toBool?))
   | _ => none
+
+/-- The argument list of `reorder_components`: the listed identifiers, followed (unless `exact`)
+by the identifiers of the table that are not listed, in table order. -/
+def reorderArg (t : Tbl) (pref : List Nat) (exact : Bool) : List Nat :=
+  if exact then pref else pref ++ t.keys.filter fun k => !(pref.contains k)
 
 /-- Impl step: the table operations as coded; the atom is what the call returns/raises. -/
 def implStep (t : Tbl) : HOp → Tbl × Option String
@@ -318,16 +330,23 @@ def implStep (t : Tbl) : HOp → Tbl × Option String
       -- add_component_link: every input must already be a component of this dataset
       if fs.all t.keys.contains then (t.set k c, none) else (t, some "value-error")
     | none => (t.set k c, none)
+  | .addRaw k c => (t.set k c, none)
   | .remove k => (removeComp (t.length + 1) t k, none)
   | .update o n => (updateId true t o n, none)
+  | .reorder pref ex =>
+    match reorderComps t (reorderArg t pref ex) with
+    | some t' => (t', none)
+    | none => (t, some "value-error")
 
 /-- Spec step: removal deletes exactly the dependency closure; replacing an identifier renames it
-everywhere (keys and defining expressions) and changes nothing else. -/
+everywhere (keys and defining expressions) and changes nothing else; reordering lists the same
+components in the requested order. -/
 def specStep (t : Tbl) : HOp → Tbl × Option String
   | .add k c =>
     match c.fromIds with
     | some fs => if fs.all t.keys.contains then (t.set k c, none) else (t, some "value-error")
     | none => (t.set k c, none)
+  | .addRaw k c => (t.set k c, none)
   | .remove k =>
     if t.keys.contains k then
       let cl := depClosure t k
@@ -337,11 +356,18 @@ def specStep (t : Tbl) : HOp → Tbl × Option String
     if o == n || !(t.keys.contains o) then (t, none)
     else if t.keys.contains n then (updateId true t o n, none)   -- outside the property: as coded
     else (specRename o n t, none)
+  | .reorder pref ex =>
+    match specReorder t (reorderArg t pref ex) with
+    | some t' => (t', none)
+    | none => (t, some "value-error")
 
-def stepObs (t : Tbl) (err : Option String) : Sexp :=
-  match err with
-  | some e => .atom e
-  | none => ofNats t.keys
+/-- Values are observed after every call that may take components away, rename or move them, and at
+the end of the history. -/
+def HOp.valued : HOp → Bool
+  | .remove _ => true
+  | .update _ _ => true
+  | .reorder _ _ => true
+  | _ => false
 
 def finalObs (I : Interp Nat Int) (dshape : List Nat) (t : Tbl) : Sexp :=
   match normView dshape [] with
@@ -352,6 +378,9 @@ def finalObs (I : Interp Nat Int) (dshape : List Nat) (t : Tbl) : Sexp :=
       | .ok v => .list [ofNat k, valSexp v]
       | .error e => .list [ofNat k, errAtom e])
 
+/-- Spec observable of a table: every component with its Spec value on the whole dataset;
+`undefined` for a derived component whose definition does not resolve (an input that is not in the
+dataset, or a cyclic definition). -/
 def finalSpec (I : Interp Nat Int) (dshape : List Nat) (t : Tbl) : Sexp :=
   match normView dshape [] with
   | none => .atom "index-error"
@@ -362,16 +391,35 @@ def finalSpec (I : Interp Nat Int) (dshape : List Nat) (t : Tbl) : Sexp :=
         .list [ofNat k, .list [ofNats dshape, ofInts (vals.map (·.getD 0))]]
       else .list [ofNat k, .atom "undefined"])
 
+/-- **Spec verdict** on an observable: equal to the Spec observable, where the Spec's `undefined`
+stands for "evaluating it raises" (`IncompatibleAttribute`, or unbounded recursion on a cycle).  A
+derived component that survives without its input is `incompatible` where the Spec has no entry at
+all, or a value where the Spec has one — never a match. -/
+partial def obsMatch : Sexp → Sexp → Bool
+  | .atom "undefined", .atom b => b == "incompatible" || b == "recursion"
+  | .atom a, .atom b => a == b
+  | .list xs, .list ys => xs.length == ys.length && (xs.zip ys).all fun p => obsMatch p.1 p.2
+  | _, _ => false
+
+def stepObs (I : Interp Nat Int) (dshape : List Nat) (spec : Bool) (o : HOp) (t : Tbl)
+    (err : Option String) : Sexp :=
+  match err with
+  | some e => .atom e
+  | none =>
+    if o.valued then
+      .list [ofNats t.keys, if spec then finalSpec I dshape t else finalObs I dshape t]
+    else ofNats t.keys
+
 def histFamily (dshape : List Nat) (t0 : Tbl) (ops : List HOp) (orc : Oracle) (pyout : Sexp) : String :=
   let I := orc.interp
-  let rec run (stepF : Tbl → HOp → Tbl × Option String) (t : Tbl) : List HOp → List Sexp × Tbl
+  let rec run (spec : Bool) (t : Tbl) : List HOp → List Sexp × Tbl
     | [] => ([], t)
     | o :: rest =>
-      let (t', e) := stepF t o
-      let (obs, tf) := run stepF t' rest
-      (stepObs t' e :: obs, tf)
-  let (iobs, it) := run implStep t0 ops
-  let (sobs, st) := run specStep t0 ops
+      let (t', e) := if spec then specStep t o else implStep t o
+      let (obs, tf) := run spec t' rest
+      (stepObs I dshape spec o t' e :: obs, tf)
+  let (iobs, it) := run false t0 ops
+  let (sobs, st) := run true t0 ops
   let impl := Sexp.list [.list iobs, finalObs I dshape it]
   let spec := Sexp.list [.list sobs, finalSpec I dshape st]
   -- hypothesis of the theorems: `update_id` towards an identifier that is not yet in the table
@@ -380,10 +428,25 @@ def histFamily (dshape : List Nat) (t0 : Tbl) (ops : List HOp) (orc : Oracle) (p
     | o :: rest =>
       (match o with | .update a b => a == b || !(t.keys.contains a) || !(t.keys.contains b) | _ => true) &&
       inP (implStep t o).1 rest
-  let br := if ops.any (fun o => match o with | .update .. => true | _ => false) then
-      (if ops.any (fun o => match o with | .remove .. => true | _ => false) then "update+remove" else "update")
-    else if ops.any (fun o => match o with | .remove .. => true | _ => false) then "remove" else "add-only"
-  driverResult impl (pyout == spec) (impl == spec) (inP t0 ops) br
+  let has := fun (f : HOp → Bool) => ops.any f
+  let hasU := has fun o => match o with | .update .. => true | _ => false
+  let hasR := has fun o => match o with | .remove .. => true | _ => false
+  let hasO := has fun o => match o with | .reorder .. => true | _ => false
+  let hasF := has fun o => match o with | .addRaw .. => true | _ => false
+  -- was some removal applied to a table in which a derived component precedes one of its inputs?
+  let rec inverted (t : Tbl) : List HOp → Bool
+    | [] => false
+    | o :: rest =>
+      (match o with
+        | .remove k => t.keys.contains k && (depClosure t k).length > 2 &&
+            (t.zipIdx.any fun (p, i) => match p.2.fromIds with
+              | some fs => fs.any fun x => (t.drop (i + 1)).any fun q => q.1 == x && q.2.fromIds.isSome
+              | none => false)
+        | _ => false) || inverted (implStep t o).1 rest
+  let br := (if hasU then (if hasR then "update+remove" else "update") else if hasR then "remove" else "add-only")
+    ++ (if hasO then "+reorder" else "") ++ (if hasF then "+fwd" else "")
+    ++ (if inverted t0 ops then "+inverted" else "")
+  driverResult impl (obsMatch spec pyout) (obsMatch spec impl) (inP t0 ops) br
 
 def step (line : String) : String :=
   match Sexp.parse line with
